@@ -2,4 +2,4 @@
 Require Extraction.
 Require Import ExtrOcamlBasic.
 From Adapt Require Import Num.Qaux Avoid.BendsSpec Avoid.GridOracle.
-Extraction "c05_spec.ml" min_bends_spec bfs_min_bends witness nb orth_pathb path_end dir_code oracle check_path.
+Extraction "c05_spec.ml" min_bends_spec bfs_min_bends witness nb orth_pathb path_end dir_code oracle_dirs check_path_dirs.
